@@ -26,12 +26,17 @@ type RangeMix struct {
 	P      frontend.Variable `gnark:",public"`
 	S      []frontend.Variable
 	Widths []int `gnark:"-"`
+	Same   bool  `gnark:"-"` // every width is checked on S[0]
 }
 
 func (c *RangeMix) Define(api frontend.API) error {
 	rc := rangecheck.New(api)
-	for k := range c.S {
-		rc.Check(c.S[k], c.Widths[k])
+	for k := range c.Widths {
+		if c.Same {
+			rc.Check(c.S[0], c.Widths[k])
+		} else {
+			rc.Check(c.S[k], c.Widths[k])
+		}
 	}
 	api.AssertIsEqual(c.P, 7)
 	return nil
@@ -40,6 +45,9 @@ func (c *RangeMix) Define(api frontend.API) error {
 type C13Beh struct {
 	ID       int    `json:"id"`
 	Builder  string `json:"builder"`
+	Mode     string `json:"mode"`
+	Min      int    `json:"min"`
+	Max      int    `json:"max"`
 	Mix      []int  `json:"mix"`
 	Var      int    `json:"var"`
 	Class    string `json:"class"`
@@ -73,16 +81,19 @@ var (
 	c13Keyz = map[string]*c13Keys{}
 )
 
-func c13Get(builder string, mix []int) *c13Keys {
+func c13Get(builder string, mix []int, same bool) *c13Keys {
 	c13Mu.Lock()
 	defer c13Mu.Unlock()
-	k := fmt.Sprint(builder, mix)
+	k := fmt.Sprint(builder, mix, same)
 	if v, ok := c13Keyz[k]; ok {
 		return v
 	}
 	v := &c13Keys{}
 	c13Keyz[k] = v
-	circ := &RangeMix{S: make([]frontend.Variable, len(mix)), Widths: mix}
+	circ := &RangeMix{S: make([]frontend.Variable, len(mix)), Widths: mix, Same: same}
+	if same {
+		circ.S = make([]frontend.Variable, 1)
+	}
 	if builder == "r1cs" {
 		v.ccs, v.err = frontend.Compile(field(), r1cs.NewBuilder, circ)
 		if v.err == nil {
@@ -104,7 +115,10 @@ func c13Get(builder string, mix []int) *c13Keys {
 
 func c13Run(b *C13Beh) C13Res {
 	res := C13Res{ID: b.ID, Curve: CurveName}
-	keys := c13Get(b.Builder, b.Mix)
+	if b.Mode == "same" {
+		return c13RunSame(b)
+	}
+	keys := c13Get(b.Builder, b.Mix, false)
 	if keys.err != nil {
 		res.Outcome, res.Err = "setup-error", keys.err.Error()
 		return res
@@ -208,6 +222,64 @@ func c13Run(b *C13Beh) C13Res {
 		} else {
 			var p plonk.Proof
 			p, perr = plonk.Prove(keys.ccs, keys.plpk, w, backend.WithSolverOptions(opts...))
+			if perr == nil {
+				verr = plonk.Verify(p, keys.plvk, pub)
+			}
+		}
+	})
+	switch {
+	case pan:
+		res.Outcome, res.Err = "panic", msg
+	case perr != nil:
+		res.Outcome, res.Err = "reject", firstLineOf(perr.Error())
+	case verr != nil:
+		res.Outcome, res.Err = "reject", "verify: "+verr.Error()
+	default:
+		res.Outcome = "accept"
+	}
+	return res
+}
+
+// c13RunSame: one variable checked at every width of the mix, honest prover.
+func c13RunSame(b *C13Beh) C13Res {
+	res := C13Res{ID: b.ID, Curve: CurveName}
+	keys := c13Get(b.Builder, b.Mix, true)
+	if keys.err != nil {
+		res.Outcome, res.Err = "setup-error", keys.err.Error()
+		return res
+	}
+	keys.mu.Lock()
+	defer keys.mu.Unlock()
+	one := big.NewInt(1)
+	v := new(big.Int)
+	switch b.Class {
+	case "honest-in":
+		v.SetInt64(1)
+	case "honest-max":
+		v.Sub(new(big.Int).Lsh(one, uint(b.Min)), one)
+	case "honest-out":
+		v.Lsh(one, uint(b.Min))
+	case "honest-between":
+		v.Sub(new(big.Int).Lsh(one, uint(b.Max)), one)
+	}
+	assign := &RangeMix{P: 7, S: []frontend.Variable{v}}
+	w, err := frontend.NewWitness(assign, field())
+	if err != nil {
+		res.Outcome, res.Err = "setup-error", err.Error()
+		return res
+	}
+	pub, _ := w.Public()
+	var perr, verr error
+	pan, msg := common.Safely(func() {
+		if b.Builder == "r1cs" {
+			var p groth16.Proof
+			p, perr = groth16.Prove(keys.ccs, keys.g16pk, w)
+			if perr == nil {
+				verr = groth16.Verify(p, keys.g16vk, pub)
+			}
+		} else {
+			var p plonk.Proof
+			p, perr = plonk.Prove(keys.ccs, keys.plpk, w)
 			if perr == nil {
 				verr = plonk.Verify(p, keys.plvk, pub)
 			}
